@@ -163,13 +163,14 @@ pub fn all() -> Vec<Prop> {
             batches: |t| {
                 let mut b = prim_batches("store", 600, 30_000, t);
                 b.extend(bft_batches(&[("swarm", 60)], &[("swarm", 1500)], t));
+                b.push(Batch { engine: "node", mode: "sync", runs: if t == "thorough" { 6000 } else { 150 } });
                 b
             },
             expected_probes: || vec!["blocks_persisted_through_manager", "cache_capacity_crossed"],
             components: || json!({
                 "real": ["engine (EngineManager, BlockStore, runner tasks: persisted-state watcher, queueing task)", "roles (block / certificate verification)", "crypto (BLS12-381)", "concurrency"],
                 "stub": ["execution layer + disk (SimEngine: lagging, jumping, pruning, failing reads, restarts)", "submitters / readers (generated scripts)", "clock, scheduler choice"],
-                "absent": ["peers answering get_block RPCs (covered when the node engine is built)"]
+                "absent": ["consensus in the node/sync population (blocks reach the manager from real peers answering get_block RPCs there)"]
             }),
             assumptions: prim_assumptions,
         },
@@ -206,13 +207,17 @@ pub fn all() -> Vec<Prop> {
         Prop {
             id: "C19",
             level: "exploration",
-            rule: "one evaluation = requester tasks (some cancelled) and 1-5 peer-worker tasks (accept -> succeed / fail / abandon) on the real fetch queue with growing availability announcements, then a fair suffix (everyone has everything, always succeeds); history oracles: single holder, inside announced range, lowest outstanding request within the accept window, re-issue after failure, cancelled requests disappear, completion in the suffix; non-trivial = at least two accepts",
-            batches: |t| prim_batches("fetch", 3000, 200_000, t),
-            expected_probes: || vec!["request_handed_out_again_after_failure"],
+            rule: "prim/fetch: one evaluation = requester tasks (some cancelled) and 1-5 peer-worker tasks (accept -> succeed / fail / abandon) on the real fetch queue with growing availability announcements, then a fair suffix (everyone has everything, always succeeds); history oracles: single holder, inside announced range, lowest outstanding request within the accept window, re-issue after failure, cancelled requests disappear, completion in the suffix, and at every quiescent point no idle worker whose peer announced the lowest outstanding request (lost wake-up); non-trivial = at least two accepts. node/sync: one evaluation = a victim node fetching a certified chain of 2-13 blocks from 1-2 real source nodes over simulated TCP while sources serve altered blocks / fail reads and connections are reset; oracles: the victim's store is always a prefix of the genuine chain, and once faults stop it holds the whole chain within 600 simulated seconds; non-trivial = at least 3 blocks",
+            batches: |t| {
+                let mut b = prim_batches("fetch", 3000, 200_000, t);
+                b.push(Batch { engine: "node", mode: "sync", runs: if t == "thorough" { 20_000 } else { 400 } });
+                b
+            },
+            expected_probes: || vec!["request_handed_out_again_after_failure", "quiescent_point_checked", "reconnected_after_failure"],
             components: || json!({
-                "real": ["network::gossip::fetch::Queue (via hook H4)", "concurrency (scope, watch, oneshot)"],
-                "stub": ["peers and requesters (scripted tasks)", "clock, scheduler choice"],
-                "absent": ["get_block RPC, real gossip connections"]
+                "real": ["network::gossip::fetch::Queue (via hook H4)", "concurrency (scope, watch, oneshot)", "node/sync population: whole network::Network nodes (block-store-state gossip, block fetcher, per-connection get_block client and server, handshakes, noise, mux, rpc) over simulated TCP (hook H2), engine::EngineManager (verification, queueing)"],
+                "stub": ["prim/fetch population: peers and requesters (scripted tasks)", "node/sync population: execution layer + disk (SimEngine; sources may serve altered blocks or fail reads), TCP (SimTcp, connection resets)", "clock, scheduler choice"],
+                "absent": ["consensus component (nodes run without a validator key in the sync population)"]
             }),
             assumptions: || {
                 let mut a = prim_assumptions();
